@@ -8,7 +8,7 @@ diffs = sorted(d for p in pats for d in glob.glob(p))
 for d in diffs:
     tmp = tempfile.mkdtemp(prefix="mut-")
     shutil.copytree("/repo/repid", tmp + "/repid", ignore=shutil.ignore_patterns("__pycache__"))
-    r = subprocess.run(["patch", "-p1", "-s", "-d", tmp, "-i", d], capture_output=True, text=True)
+    r = subprocess.run(["patch", "-p1", "-s", "-f", "-d", tmp, "-i", d], capture_output=True, text=True)
     if r.returncode != 0:
         print(f"{d}: PATCH FAILED {r.stdout[:200]}")
         shutil.rmtree(tmp); continue
